@@ -285,3 +285,44 @@ C11 = dict(
 FAMILIES["C11"] = C11
 
 import props_c07; FAMILIES["C07"] = props_c07.C07
+
+
+# ----------------------------------------------------------------- C03
+def _validate_case(world, c, i):
+    return dict(id=i, policy=c["policy"], must=c["must"])
+
+
+def _validate_setup(world):
+    return dict(setup=dict(schema=world["schema"], envs=world["envs"]))
+
+
+def _mutate_validate(ev):
+    if ev.get("ev") != "Validate":
+        return None
+    ev = json.loads(json.dumps(ev))
+    if ev["strict"]:
+        ev["classes"] = sorted(set(ev["classes"]) | {"noAttr"})
+    else:
+        ev["strict"] = True
+        ev["permissive"] = True
+        ev["classes"] = sorted(set(ev["classes"]) | {"type"})
+    return ev
+
+
+C03 = dict(
+    family="validate", trace_module="Trace_Validate.tla",
+    models=[dict(name="mc_validate", module="MC_Validate.tla", cfg=dict(quick="MC_Validate.cfg", thorough="MC_Validate.cfg"),
+                 cases=_validate_case, setup=_validate_setup, limit=dict(quick=1500, thorough=None))],
+    nontrivial=lambda ev: ev.get("ev") == "Validate",
+    key=lambda ev: ev.get("policy"),
+    mutate=_mutate_validate, chunk=150,
+    rule="G: policies over schema Sc2 = 10 access atoms (optional attrs, attr chains through entity refs with and without records, optional record "
+         "fields, tags, context fields, overflow-capable arithmetic) x 4 guards (matching has/hasTag, mismatching, true, unrelated) x 13 connectives "
+         "(&&, ||, !, if, nesting, both operand orders) x 5 scopes, plus 20 type probes x 5 scopes; each is validated strict and permissive and "
+         "evaluated by the real evaluator on all 960 conformant environments (every optional component present/absent; environments are built through "
+         "the library's own schema-based validation, which must accept all of them). TLC recomputes every outcome class and checks soundness, "
+         "impossible => never satisfied, strict => permissive, and acceptance of the must-accept fragment. quick replays a seeded sample of 1500 policies.",
+    assumptions=["one schema (Sc2) and its 960-environment universe; soundness is established for the generated programs, not all programs",
+                 "static types of individual subexpressions (typed AST) are not yet compared node by node"],
+)
+FAMILIES["C03"] = C03
